@@ -820,6 +820,14 @@ def _field_reference_tail(dot, reference):
     return reference
 
 
+# The IR stores integers of arbitrary size as decimal strings; CPython 3.11+
+# refuses int <-> str conversions of more than 4300 digits by default, which
+# would turn an absurdly long (but lexically valid) Number into a ValueError
+# instead of the usual "value out of range" diagnostics.
+if hasattr(sys, "set_int_max_str_digits"):
+    sys.set_int_max_str_digits(0)
+
+
 @_handles("numeric-constant -> Number")
 def _numeric_constant(number):
     # All types of numeric constant tokenize to the same symbol, because they are
